@@ -128,3 +128,29 @@ Theorem C09_full_gate_waits : forall s r,
   cap s <= length (inflight s) -> gate_step s (Enter r) = None.
 Proof. exact enter_needs_slot. Qed.
 Print Assumptions C09_full_gate_waits.
+
+(* a render that waits at a full gate - e.g. one of several callers that arrived
+   together beyond the free slots - cannot enter and cannot leave; when its
+   context ends it still cannot enter, and it can return the error at once,
+   with the renders in flight exactly as they are: no slot has to come back first *)
+Theorem C09_full_gate_cancel : forall n evs s r,
+  reach n evs = Some s -> In r (waiting s) -> cap s <= length (inflight s) ->
+  gate_step s (Enter r) = None /\ (forall o, gate_step s (Leave r o) = None) /\
+  exists s1, gate_step s (CtxEnd r) = Some s1 /\
+    inflight s1 = inflight s /\ waiting s1 = waiting s /\ cap s1 = cap s /\
+    gate_step s1 (Enter r) = None /\
+    exists s2, gate_step s1 (Cancel r) = Some s2 /\
+      inflight s2 = inflight s /\ waiting s2 = del r (waiting s) /\ cap s2 = cap s.
+Proof. exact gate_full_gate_cancel. Qed.
+Print Assumptions C09_full_gate_cancel.
+
+(* rounds: after any accepted history in which every started render has left or
+   got the context error, any further history (render names moved past all names
+   used so far) is accepted exactly when a new gate with the same limit accepts
+   it, and both gates then show the same renders in flight and waiting *)
+Theorem C09_round_reset : forall n evs s d evs',
+  reach n evs = Some s -> all_started_done evs ->
+  (forall r, In r (started evs) -> r < d) ->
+  same_upto d (reach n evs') (run (Some s) (map (shift d) evs')).
+Proof. exact gate_round_reset. Qed.
+Print Assumptions C09_round_reset.
